@@ -130,6 +130,16 @@ class ObjRunner:
         self.module_state[rel] = env
         return env
 
+    def run_block(self, finfo, stmts, env):
+        """Interpret a block of statements of function finfo with the given local environment; returns the final environment."""
+        full = dict(env)
+        for k, v in self.module_env(finfo.module.rel).items():
+            full.setdefault(k, v)
+        it = (ForkInterp(full, self.oracle, call_hook=self.hook, loop_hook=self.loop, strict=True) if self.fork
+              else Interp(full, call_hook=self.hook, loop_hook=self.loop, strict=True))
+        it.run(stmts)
+        return it.env
+
     def call_function(self, rel, name, *args, **kw):
         return self.run_function(self.prog.func(rel, name), None, args, kw, plain=True)
 
